@@ -40,6 +40,25 @@ for line in sys.stdin:
         tag = generate.tag_source(src)
         mk = re.search(r"VERIF_K (\d+)", src)
         print(json.dumps([float(x) for x in r] + [m.info.id, tag, os.path.basename(m.dllpath), int(mk.group(1)) if mk else -1, float(r0[0] / r[0]), r2d])); sys.stdout.flush()
+    elif cmd["op"] == "load_sasview":
+        # the same plug-in through the SasView-style entry point (it keeps its own notion of what is loaded)
+        import os
+        from sasmodels.sasview_model import load_custom_model
+        from sasmodels import generate
+        Mcls = load_custom_model(sys.argv[2])        # always by file path (this entry point takes no bare names)
+        def ev(q, **kw):
+            mm = Mcls()
+            mm.setParam("scale", 1.0); mm.setParam("background", 0.0)
+            for k_, v_ in kw.items():
+                mm.setParam(k_, v_)
+            return mm.evalDistribution(q)
+        r = ev(np.array([1.0, 2.0, 3.0]), s=1.0)
+        r0 = ev(np.array([1.0, 2.0, 3.0]))
+        r2d = float(ev([np.array([0.3]), np.array([0.4])], s=1.0)[0])
+        info = Mcls._model_info
+        src = generate.make_source(info)["dll"]
+        mk = re.search(r"VERIF_K (\d+)", src)
+        print(json.dumps([float(x) for x in r] + [info.id, generate.tag_source(src), None, int(mk.group(1)) if mk else -1, float(r0[0] / r[0]), r2d])); sys.stdout.flush()
     elif cmd["op"] == "quit":
         break
 """
@@ -116,7 +135,7 @@ class World:
                    PYTHONDONTWRITEBYTECODE="1")
         if self.bare:
             env["SAS_MODELPATH"] = self.dir
-        self.proc = subprocess.Popen([common.PY, self.wpath, self.name if self.bare else self.mpath], env=env, stdin=subprocess.PIPE,
+        self.proc = subprocess.Popen([common.PY, self.wpath, self.name if self.bare else self.mpath, self.mpath], env=env, stdin=subprocess.PIPE,
                                      stdout=subprocess.PIPE, stderr=subprocess.PIPE, text=True, cwd=self.dir)
 
     def stop(self):
@@ -131,7 +150,7 @@ class World:
     def load(self, dtype):
         if self.proc is None or self.proc.poll() is not None:
             self.start()
-        self.proc.stdin.write(json.dumps({"op": "load", "dtype": dtype}) + "\n"); self.proc.stdin.flush()
+        self.proc.stdin.write(json.dumps({"op": "load_sasview"} if dtype == "sasview" else {"op": "load", "dtype": dtype}) + "\n"); self.proc.stdin.flush()
         line = self.proc.stdout.readline()
         if not line:
             err = self.proc.stderr.read()
@@ -165,7 +184,7 @@ def gen_history(rng, n):
         elif r < 0.53:
             ops.append(("Fresh",))
         else:
-            ops.append(("Load", rng.choice([64, 64, 32])))
+            ops.append(("Load", rng.choice([64, 64, 32, 65])))      # 65: double precision through sasview_model.load_custom_model
     ops.append(("Load", 64))
     return init, ops
 
@@ -184,14 +203,15 @@ def run_history(root, idx, init, ops):
             elif op[0] == "Fresh":
                 w.stop()
             elif op[0] == "Load":
-                vals, err = w.load("double" if op[1] == 64 else "single")
+                vals, err = w.load("double" if op[1] == 64 else ("sasview" if op[1] == 65 else "single"))
                 if vals is None:
                     errors.append(err); obs.append((-1, -1, -1, -1)); continue
                 r1, r2, r3 = vals[0], vals[1], vals[2]        # r(q) = M q + C + H q^2 at q = 1, 2, 3
                 h = (r3 - 2 * r2 + r1) / 2.0
                 m = r2 - r1 - 3 * h
                 c = r1 - m - h
-                names.append((str(op[1]), vals[3], vals[4], vals[5]))
+                if vals[5] is not None:
+                    names.append((str(op[1]), vals[3], vals[4], vals[5]))
                 mid_obs = int(round(m)) + 20 * (int(round(vals[7])) - 1)
                 used_iqxy = vals[8] > 900.0
                 if used_iqxy != has_iqxy(mid_obs):
@@ -322,6 +342,11 @@ def main(run):
     hist.append((dict(M=(4, 0), C=(3, 0), H=(1, 0), K=(1, 0)),
                  [("Load", 64), ("Edit", "M", 5, 1), ("Load", 64), ("Edit", "M", 4, 2), ("Load", 64), ("Edit", "M", 45, 3), ("Load", 64),
                   ("Edit", "M", 6, 4), ("Load", 64), ("Edit", "M", 26, 5), ("Load", 64), ("Edit", "M", 6, 6), ("Load", 32)]))
+    # ... the two entry points in one process: the SasView-style loader, an edit, the core loader, the SasView-style
+    # loader again (and the other way round)
+    hist.append((dict(M=(2, 0), C=(4, 0), H=(1, 0), K=(1, 0)),
+                 [("Load", 65), ("Edit", "M", 7, 1), ("Load", 64), ("Load", 65), ("Edit", "C", 9, 2), ("Load", 64), ("Load", 65),
+                  ("Edit", "M", 27, 3), ("Load", 65), ("Load", 64), ("Edit", "M", 2, 4), ("Load", 64), ("Load", 65)]))
     n = 8 if not thorough else 110
     for _ in range(n):
         hist.append(gen_history(rng, rng.randint(4, 12)))
@@ -376,7 +401,7 @@ def main(run):
         def opc(o):
             if o[0] == "Edit":
                 return "Edit%s %d %d" % (o[1], o[2], o[3])
-            return "Fresh" if o[0] == "Fresh" else "Load %d" % o[1]
+            return "Fresh" if o[0] == "Fresh" else "Load %d" % (64 if o[1] == 65 else o[1])
         body = ";\n".join("(%s, %s, %s, %s)" % (
             ", ".join("MkFile %d %d" % tuple(r["init"][f]) for f in FILES), coq_list(["(%s)" % opc(o) for o in r["ops"]], "op"),
             coq_list(["(%d, %d, %d, %d)" % tuple(x) for x in r["observed"]], "(nat * nat * nat * nat)"), len(r["libs"])) for r in res)
